@@ -50,9 +50,30 @@ func TestCheck(t *testing.T) {
 	}
 	n := int64(cfg.Pick(300, 400))
 	nTyped := int64(cfg.Pick(500, 2000))
-	rep.Cases(n+nTyped, func(idx int64, rng *mon.Rand) {
+	nNil := int64(cfg.Pick(240, 1200))
+	rep.Require("nilchunk_cases", 50)
+	rep.Require("nilmapped_cases", 25)
+	rep.Require("nilchunk_kind_nil-next-to-real-chunks", 20)
+	rep.Require("nilchunk_kind_only-nil-chunks", 5)
+	rep.Require("nilmapped_gap_"+nmMarkPath, 5)
+	rep.Require("nilmapped_gap_"+nmMarkValue, 2)
+	rep.Cases(n+nTyped+nNil, func(idx int64, rng *mon.Rand) {
+		if idx < n+nTyped && os.Getenv("C04_NIL_ONLY") != "" {
+			return // debugging aid: only the nil-chunk sub-workloads
+		}
 		if idx < n && os.Getenv("C04_TYPED_ONLY") != "" {
 			return // debugging aid: skip the gspec workload
+		}
+		if idx >= n+nTyped {
+			// nil chunks next to real chunks in front of the run-time type checks (nilchunk_test.go),
+			// field mappings over source chunks with a nil on the mapped path (nilmapped_test.go)
+			k := idx - n - nTyped
+			if k%3 == 2 {
+				nilMappedCase(ctx, rep, rng, cfg, k < 6)
+			} else {
+				nilChunkCase(ctx, rep, rng, cfg, k < 6)
+			}
+			return
 		}
 		if idx >= n {
 			// typed sub-workload (typed_*_test.go): nodes over string / any / a named interface /
